@@ -24,7 +24,6 @@ type chk struct {
 	sens   Sens
 	extra  float64
 	floor  float64 // absolute error floor in units of C*u (log-variants only)
-	lax    bool    // intermediate quantities underflow: only "not NaN, not Inf" is demanded
 	alt    *Ref    // alternative acceptable reference (sign convention of B1)
 }
 
@@ -108,6 +107,19 @@ func prefixRegion(a, x float64) string {
 		return "prefix-a>=128"
 	}
 	return "prefix-a>=10"
+}
+
+// prefixMagnitude names the float64 fate of x^a e^-x / Gamma(a), the quantity both
+// derivatives of P are formed from (pg is its true value): the derivatives themselves may
+// be perfectly normal numbers where it is subnormal or zero.
+func prefixMagnitude(pg *big.Float) string {
+	switch {
+	case pg.Cmp(bnew().SetMantExp(bf(1), -1075)) < 0:
+		return "|prefix-underflows"
+	case pg.Cmp(bf(1e-290)) < 0:
+		return "|prefix-subnormal" // the prefix, or the power it is formed from, is subnormal
+	}
+	return ""
 }
 
 func besselRegion(v, x float64) string {
@@ -461,25 +473,19 @@ func rowChecks(p Pt, row string) ([]chk, error) {
 		}
 		return []chk{c}, nil
 	case "igam":
-		return igamChecks(a, x, row)
+		r, err := parseIgam(row)
+		if err != nil {
+			return nil, err
+		}
+		return igamChecks(a, x, r)
 	case "bessel":
-		f, err := cols(row, 4)
+		br, err := parseBessel(row)
 		if err != nil {
 			return nil, err
 		}
-		r1, s1, err := refSens(f[0], f[1])
-		if err != nil {
-			return nil, err
-		}
-		r2, s2, err := refSens(f[2], f[3])
-		if err != nil {
-			return nil, err
-		}
-		reg := besselRegion(a, x)
-		return []chk{
-			{fn: "BesselI", region: reg, call: fmt.Sprintf("BesselI(%v, %v)", a, x), f: func() float64 { return sp.BesselI(a, x) }, ref: r1, sens: s1},
-			{fn: "LogBesselI", region: reg, call: fmt.Sprintf("LogBesselI(%v, %v)", a, x), f: func() float64 { return sp.LogBesselI(a, x) }, ref: r2, sens: s2, floor: logFloor(s1)},
-		}, nil
+		return besselChecks(a, x, br), nil
+	case "igshape", "beshape":
+		return nil, nil // constants of the computed reference (ref6.go), no case of their own
 	case "logadd":
 		f, err := cols(row, 4)
 		if err != nil {
@@ -560,11 +566,15 @@ func parseIgam(row string) (*igamRow, error) {
 
 func quo(a, b *big.Float) *big.Float { return bnew().Quo(a, b) }
 
-func igamChecks(a, x float64, row string) ([]chk, error) {
-	r, err := parseIgam(row)
-	if err != nil {
-		return nil, err
+func besselChecks(v, x float64, br *besselRow) []chk {
+	reg := besselRegion(v, x)
+	return []chk{
+		{fn: "BesselI", region: reg, call: fmt.Sprintf("BesselI(%v, %v)", v, x), f: func() float64 { return sp.BesselI(v, x) }, ref: br.I, sens: br.sI},
+		{fn: "LogBesselI", region: reg, call: fmt.Sprintf("LogBesselI(%v, %v)", v, x), f: func() float64 { return sp.LogBesselI(v, x) }, ref: br.L, sens: br.sL, floor: logFloor(br.sI)},
 	}
+}
+
+func igamChecks(a, x float64, r *igamRow) ([]chk, error) {
 	if r.G.Sign() <= 0 {
 		return nil, fmt.Errorf("igam row a=%v x=%v: Gamma(a) not positive", a, x)
 	}
@@ -614,34 +624,24 @@ func igamChecks(a, x float64, row string) ([]chk, error) {
 	dP := quo(r.pref, bnew().Mul(bx, r.G))
 	am1x := bnew().Sub(bnew().Sub(bf(a), bf(1)), bx) // exact
 	d2P := quo(bnew().Mul(dP, am1x), bx)
-	if pg := f64(quo(r.pref, r.G)); pg < 1e-290 {
-		// x^a e^-x / Gamma(a), the common factor of both derivatives, is itself in the
-		// denormal range: only graceful underflow is demanded (no NaN, no blow-up)
-		lax := func(fn string, f func() float64, v *big.Float) chk {
-			k := mk(fn, prefixRegion(a, x)+"|prefix-underflows", f, v, 0)
-			k.lax = true
-			return k
-		}
-		cs = append(cs,
-			lax("GammaPfirstDerivative", func() float64 { return sp.GammaPfirstDerivative(a, x) }, dP),
-			lax("GammaPsecondDerivative", func() float64 { return sp.GammaPsecondDerivative(a, x) }, d2P))
-		return cs, nil
-	}
-	cs = append(cs, mk("GammaPfirstDerivative", prefixRegion(a, x), func() float64 { return sp.GammaPfirstDerivative(a, x) }, dP, math.Abs(a-1-x)+r.caD))
+	// x^a e^-x / Gamma(a), the common factor of both derivatives, may be subnormal or zero in
+	// float64 where the derivatives themselves are ordinary numbers (a = 2, x = 1e-200:
+	// prefix 1e-400, dP/dx = 1e-200): the comparison is made on the RESULT like everywhere
+	// else (judge demands nothing of results below 1e-290); the fate of the prefix only names
+	// the branch
+	preg := prefixRegion(a, x) + prefixMagnitude(quo(r.pref, r.G))
+	cs = append(cs, mk("GammaPfirstDerivative", preg, func() float64 { return sp.GammaPfirstDerivative(a, x) }, dP, math.Abs(a-1-x)+r.caD))
 	// absolute sensitivity of the second derivative (it has a zero at x = a-1)
 	t := math.Abs(f64(dP))
-	d2 := f64(d2P)
 	sx := t * math.Abs(((a-1-x)*(a-1-x)-(a-1))/x)
-	sa := math.Abs(d2)*r.caD + t*a/x
-	c2 := chk{fn: "GammaPsecondDerivative", region: prefixRegion(a, x), call: fmt.Sprintf("GammaPsecondDerivative(%v, %v)", a, x), f: func() float64 { return sp.GammaPsecondDerivative(a, x) }, ref: refFromBig(d2P)}
+	sa := t * a / x // d2P = 0 below
+	c2 := chk{fn: "GammaPsecondDerivative", region: preg, call: fmt.Sprintf("GammaPsecondDerivative(%v, %v)", a, x), f: func() float64 { return sp.GammaPsecondDerivative(a, x) }, ref: refFromBig(d2P)}
 	if d2P.Sign() == 0 {
 		c2.sens = Sens{Abs: true, V: sx + sa}
 	} else {
-		c2.sens = Sens{V: (sx + sa) / math.Abs(d2)}
-		if math.IsNaN(c2.sens.V) || math.IsInf(c2.sens.V, 0) {
-			// dP over/underflows in float64 although the ratio is fine: use the analytic form
-			c2.sens = Sens{V: math.Abs(((a-1-x)*(a-1-x)-(a-1))/(a-1-x)) + r.caD + math.Abs(a/(a-1-x))}
-		}
+		// (sx + sa)/|d2| in closed form: dP may be subnormal or zero in float64 where the
+		// second derivative is an ordinary number
+		c2.sens = Sens{V: math.Abs(((a-1-x)*(a-1-x)-(a-1))/(a-1-x)) + r.caD + math.Abs(a/(a-1-x))}
 	}
 	cs = append(cs, c2)
 	return cs, nil
